@@ -19,7 +19,7 @@ import time
 import numpy as np
 
 
-class UnreadableFile(IOError):
+class UnreadableFile(Exception):
     pass
 
 
@@ -90,17 +90,20 @@ def _make_queue_class():
         def __init__(self, maxsize=0):
             super().__init__(maxsize, ctx=multiprocessing.get_context())
             self._verif_results = maxsize > 0
+            # the put delay travels with the queue object (pickled state), so it reaches the
+            # workers under fork, spawn and forkserver alike
+            self._verif_put_delay = PUT_DELAY["each"]
 
         def __getstate__(self):
-            return super().__getstate__() + (self._verif_results,)
+            return super().__getstate__() + (self._verif_results, self._verif_put_delay)
 
         def __setstate__(self, state):
-            super().__setstate__(state[:-1])
-            self._verif_results = state[-1]
+            super().__setstate__(state[:-2])
+            self._verif_results, self._verif_put_delay = state[-2], state[-1]
 
         def put(self, obj, block=True, timeout=None):
-            if self._verif_results and PUT_DELAY["each"]:
-                time.sleep(PUT_DELAY["each"])
+            if self._verif_results and self._verif_put_delay:
+                time.sleep(self._verif_put_delay)
             return super().put(obj, block, timeout)
 
         def get(self, block=True, timeout=None):
